@@ -394,7 +394,7 @@ def tier_and_seed(argv):
 
 def differential(res, prop, sub, cases, to_coq, requires, mismatch_fn, model_fn, oracle,
                  group_oracle=None, shrink=None, nontrivial=None, signature=None, shards=16,
-                 theorems_note="", strip=None, tag="cases"):
+                 theorems_note="", strip=None, tag="cases", canon=None):
     """Run `cases` on the implementation (harness subcommand `sub`) and on the Coq model.
     oracle(case, obs) -> None or a string describing an implementation-side property failure.
     group_oracle(cases, obs) -> list of (index, message).
@@ -435,7 +435,7 @@ def differential(res, prop, sub, cases, to_coq, requires, mismatch_fn, model_fn,
         res.violation({"property": prop, "kind": "implementation violates property oracle", "what": msg,
                        "case": c, "impl_obs": o, "harness": sub, "signature": sig}, found_input=True, signature=sig)
     # model vs implementation
-    terms = [(i, to_coq(c), cobs(o["rows"])) for i, (c, o) in enumerate(zip(cases, obs))]
+    terms = [(i, to_coq(c), cobs(canon(c, o["rows"]) if canon else o["rows"])) for i, (c, o) in enumerate(zip(cases, obs))]
     okc, bad, clog = run_coq_cases(prop, requires, mismatch_fn, terms, shards=shards, tag=tag)
     res.obligation(okc, "model evaluation (coqc cases): " + clog[-1500:])
     res.obligation(not bad, "model/implementation correspondence on %d cases (mismatches: %s)" % (len(cases), bad[:10]))
